@@ -11,6 +11,7 @@ import (
 	"go/printer"
 	"go/token"
 	"go/types"
+	"regexp"
 	"sort"
 	"strconv"
 	"strings"
@@ -360,7 +361,17 @@ func typeList(ts []types.Type) string {
 func canonType(t types.Type, tps *types.TypeParamList) string {
 	var b strings.Builder
 	canonWrite(&b, t, tps, 0)
-	return b.String()
+	return strings.NewReplacer("\x01", "", "\x02", "").Replace(b.String())
+}
+
+var fieldNameRe = regexp.MustCompile("\x01[^\x02]*\x02 ")
+
+// canonNoNames is canonType without struct field names (the call-record field names may
+// legitimately differ between a joint and a solo generation).
+func canonNoNames(t types.Type, tps *types.TypeParamList) string {
+	var b strings.Builder
+	canonWrite(&b, t, tps, 0)
+	return fieldNameRe.ReplaceAllString(b.String(), "")
 }
 
 func canonWrite(b *strings.Builder, t types.Type, tps *types.TypeParamList, depth int) {
@@ -452,7 +463,7 @@ func canonWrite(b *strings.Builder, t types.Type, tps *types.TypeParamList, dept
 			if f.Embedded() {
 				b.WriteString("embedded ")
 			}
-			b.WriteString(f.Name() + " ")
+			b.WriteString("\x01" + f.Name() + "\x02 ")
 			canonWrite(b, f.Type(), tps, depth+1)
 			if tag := t.Tag(i); tag != "" {
 				b.WriteString(" " + strconv.Quote(tag))
